@@ -580,6 +580,7 @@ def run(ck):
     ck.rule('C07.b', 'coverage: encoder and decoder checksum the same words ([0,6), then word 7 with payload CRC), store/read it in word 6; payload plausibility per frame type; checksum variant follows WORD-SIZE-16')
     ck.rule('C07.c', 'classification: error codes per origin; first failure wins; EBADMSG/EILSEQ -> META EHEADERENC/EHEADERCRC; EPROTO/EFAULT -> EPAYLOADCRC/EPAYLOADSIZE for requests only; frames that failed reception never reach the backend nor get acknowledged')
     ck.rule('C07.d', 'header validation: version, reserved bit, type, meta field per type, minimal length')
+    ck.rule('C07.f', 'the tail of a damaged or dropped serial frame is skipped, not parsed: decoder context in the instance, regp_recv sends it to skip-to-end-of-frame when it drops a partly received frame and otherwise leaves its state alone (C06.f re-evaluated)')
     ck.rule('C07.e', 'error-detection algebra: with the table, coverage, field and checksum positions read from the source, no single-bit error, two-bit error or burst flipping a whole window of 2..16 bits behind the first header word leaves every equality the serial receiver verifies intact (affine checksum: decided on error patterns, for all frames at once)')
     ck.not_decided += ['arbitrary (non-solid) error patterns inside a 16-bit window: the reflected checksum stored high octet first inside its own coverage does not catch all of them (DESIGN 11.6, observation about the wire format)',
                        'equivalence with an independent reading of the document for arbitrary octet strings']
@@ -590,3 +591,7 @@ def run(ck):
     rule_d(ck, R)
     from . import c07_algebra
     c07_algebra.rule_e(ck, R, motv_test)
+    # a damaged frame must not be executed in part either: what the SLIP decoder does with the rest of a frame it gave up
+    # on is decided by C06.f and re-evaluated here (the tail of a damaged frame is skipped, also across calls)
+    from . import c06
+    c06.rule_decoder_state(ck, R, rule='C07.f')
